@@ -110,6 +110,8 @@ def check(ctx, case):
                    "seed": (code * 7 + case["version"]) & 0xFFFFFFFF}
             ctx.evaluations += 1
             ctx.digests.add(hash((case["sf"], case["version"], case["chart"], code)) & 0xFFFFFFFFFFFFFFFF)
+            if code % 9973 == 243:
+                ctx.add_sample(dict(one, states=dict(zip(PROPS, states_of(code))), version_text=VERSIONS[case["version"]]))
             run_one(ctx, one)
         return
     ctx.begin(case, nontrivial=case["chart"] != "none")
